@@ -5,8 +5,18 @@
 //!                                 `only_in_change_text`; the client's document is t2). FOUND = a round ended on t1.
 //!   replay open-close [rounds]    didOpen(u, t1) + didClose(u) in ONE write for a document that is not on disk, then documentSymbol:
 //!                                 FOUND = the closed document is still in the analysis.
-//!   replay all [rounds]           both
-//! env: VR_C27_OPEN_KB (size of the didOpen text, default 64), VR_C27_SETTLE_MS (default 600). exit 1 = FOUND, 0 = every round in message order.
+//!   replay version-restart        document versions are advisory for a full-sync server, the property speaks about MESSAGE order: (restart) didOpen v1,
+//!                                 didChange v2..v5, didClose, didOpen v1 (new text), didChange v2 (newer text); (constant) every message v1;
+//!                                 (decreasing) v10, v9, v8, v7 — each time the analysed text must be the one of the last message.
+//!   replay init-queue             a generated 30-file workspace; `initialized` + didOpen + N x (didChange, hover request) in ONE write, i.e. while the
+//!                                 server is still initializing (the messages wait in its queue), N = 3, 8, 21, 30: afterwards the analysed text must
+//!                                 be the LAST change.
+//!   replay reload-overlap [rounds] an open workspace document; `.emmyrc.json` is rewritten and announced (workspace/didChangeWatchedFiles) so that the
+//!                                 server reloads its workspace; the didChange of the open document is sent WHILE the reload is in flight (the client sees
+//!                                 the reload's `window/workDoneProgress/create` request and answers it a random 30-300 ms later, the didChange goes out in
+//!                                 between); after the reload has settled (text stable for 1.5 s) the analysed text must be that didChange.
+//!   replay all [rounds]           all five
+//! env: VERIF_SEED (random delays of reload-overlap), VR_C27_OPEN_KB (size of the didOpen text, default 64), VR_C27_SETTLE_MS (default 600). exit 1 = FOUND, 0 = every round in message order.
 //! The client plumbing (Server, frame, req, notif) is copied from replay/c24.
 use serde_json::{Value, json};
 use std::collections::BTreeMap;
@@ -18,7 +28,7 @@ use std::time::{Duration, Instant};
 fn server_main() {
     use emmylua_ls::cmd_args::*;
     let args = CmdArgs {
-        communication: Communication::Stdio, ip: "127.0.0.1".to_string(), port: 5007, log_level: LogLevel::Error,
+        communication: Communication::Stdio, ip: "127.0.0.1".to_string(), port: 5007, log_level: if std::env::var("VR_C27_TRACE").is_ok() { LogLevel::Info } else { LogLevel::Error },
         log_path: NoneableString(Some(std::env::var("VR_C27_LOGDIR").unwrap_or(std::env::temp_dir().join("vr_c27_logs").to_string_lossy().to_string()))),
         resources_path: NoneableString(None), load_stdlib: CmdBool(false), editor: None,
     };
@@ -28,7 +38,9 @@ fn server_main() {
     std::process::exit(if r.is_ok() { 0 } else { 3 });
 }
 
-struct Server { child: Child, stdin: ChildStdin, rx: Receiver<Value>, responses: BTreeMap<String, Vec<Value>> }
+struct Server { child: Child, stdin: ChildStdin, rx: Receiver<Value>, responses: BTreeMap<String, Vec<Value>>,
+                /// reload-overlap: do not answer the next `window/workDoneProgress/create` for the LoadWorkspace task at once; its id is kept here
+                hold_load_progress: bool, held: Vec<Value> }
 
 fn frame(v: &Value) -> Vec<u8> { let body = v.to_string(); format!("Content-Length: {}\r\n\r\n{}", body.len(), body).into_bytes() }
 
@@ -54,7 +66,7 @@ impl Server {
             if out.read_exact(&mut buf).is_err() { return; }
             if let Ok(v) = serde_json::from_slice::<Value>(&buf) { if tx.send(v).is_err() { return; } }
         });
-        Server { child, stdin, rx, responses: BTreeMap::new() }
+        Server { child, stdin, rx, responses: BTreeMap::new(), hold_load_progress: false, held: Vec::new() }
     }
     fn send(&mut self, v: Value) -> bool { self.send_all(&[v]) }
     /// several messages in ONE write: they reach the server back to back
@@ -64,8 +76,13 @@ impl Server {
         self.stdin.write_all(&bytes).and_then(|_| self.stdin.flush()).is_ok()
     }
     fn take(&mut self, m: Value) {
+        if std::env::var("VR_C27_TRACE").is_ok() { let t = m.to_string(); println!("    <- {}", t.chars().take(160).collect::<String>()); }
         if m.get("method").is_some() {
             // a request FROM the server (configuration, registerCapability, progress): answered with null
+            if self.hold_load_progress && m["method"] == json!("window/workDoneProgress/create") && m["params"]["token"] == json!(0) {
+                if let Some(id) = m.get("id") { self.held.push(id.clone()); }
+                return;
+            }
             if let Some(id) = m.get("id") { let r = json!({"jsonrpc": "2.0", "id": id.clone(), "result": null}); let _ = self.stdin.write_all(&frame(&r)).and_then(|_| self.stdin.flush()); }
         } else if let Some(id) = m.get("id") {
             self.responses.entry(id.to_string()).or_default().push(m);
@@ -84,6 +101,9 @@ impl Server {
     fn settle(&mut self, d: Duration) {
         let end = Instant::now() + d;
         while Instant::now() < end { if let Ok(m) = self.rx.recv_timeout(Duration::from_millis(20)) { self.take(m); } }
+    }
+    fn answer_held(&mut self) {
+        for id in std::mem::take(&mut self.held) { let r = json!({"jsonrpc": "2.0", "id": id, "result": null}); let _ = self.stdin.write_all(&frame(&r)).and_then(|_| self.stdin.flush()); }
     }
     fn exited(&mut self) -> Option<String> { self.child.try_wait().ok().flatten().map(|s| format!("{s}")) }
     fn stop(&mut self) {
@@ -200,15 +220,188 @@ fn open_close(rounds: usize) -> Option<usize> {
     Some(found)
 }
 
+fn did_open(uri: &str, version: i64, text: &str) -> Value {
+    notif("textDocument/didOpen", Some(json!({"textDocument": {"uri": uri, "languageId": "lua", "version": version, "text": text}})))
+}
+fn did_change(uri: &str, version: i64, text: &str) -> Value {
+    notif("textDocument/didChange", Some(json!({"textDocument": {"uri": uri, "version": version}, "contentChanges": [{"text": text}]})))
+}
+fn did_close(uri: &str) -> Value { notif("textDocument/didClose", Some(json!({"textDocument": {"uri": uri}}))) }
+/// the text of step `k` of a scenario: it defines exactly one function, `<tag>_<k>`
+fn step_text(tag: &str, k: usize) -> String { format!("function {tag}_{k}() end\n") }
+
+fn version_restart() -> Option<usize> {
+    println!("== version-restart: the analysed text follows MESSAGE order whatever the document versions say ==");
+    let mut s = started()?;
+    let settle = Duration::from_millis(env_usize("VR_C27_SETTLE_MS", 600) as u64);
+    let mut found = 0;
+    // (name, messages as (kind, version): 'o' didOpen, 'c' didChange, 'x' didClose); step k carries the text step_text(name, k)
+    let scenarios: Vec<(&str, Vec<(char, i64)>)> = vec![
+        ("restart", vec![('o', 1), ('c', 2), ('c', 3), ('c', 4), ('c', 5), ('x', 0), ('o', 1), ('c', 2)]),
+        ("restart_twice", vec![('o', 7), ('c', 8), ('c', 9), ('x', 0), ('o', 1), ('c', 2), ('x', 0), ('o', 1), ('c', 1)]),
+        ("constant", vec![('o', 1), ('c', 1), ('c', 1), ('c', 1)]),
+        ("decreasing", vec![('o', 10), ('c', 9), ('c', 8), ('c', 7)]),
+        ("zero", vec![('o', 0), ('c', 0), ('c', -1)]),
+    ];
+    for (round, one_write) in [(0, true), (1, false)] {
+        for (i, (name, msgs)) in scenarios.iter().enumerate() {
+            let uri = format!("file:///vr_c27/versions_{name}_{round}.lua");
+            let batch: Vec<Value> = msgs.iter().enumerate().map(|(k, (kind, v))| match kind {
+                'o' => did_open(&uri, *v, &step_text(name, k)), 'c' => did_change(&uri, *v, &step_text(name, k)), _ => did_close(&uri) }).collect();
+            if one_write { s.send_all(&batch); } else { for m in &batch { s.send(m.clone()); s.settle(Duration::from_millis(40)); } }
+            s.settle(settle);
+            let want = format!("{name}_{}", msgs.len() - 1);
+            let Some(got) = symbols(&mut s, 2000 + (round * 100 + i) as i64, &uri) else { println!("UNDECIDED {name}: no documentSymbol answer"); s.stop(); return None; };
+            let seq: Vec<String> = msgs.iter().map(|(k, v)| match k { 'o' => format!("didOpen v{v}"), 'c' => format!("didChange v{v}"), _ => "didClose".to_string() }).collect();
+            if got.iter().any(|n| *n == want) && got.len() == 1 { println!("ok    {name} ({}): {} -> {got:?}", if one_write { "one write" } else { "one by one" }, seq.join(", ")); }
+            else { println!("FOUND {name} ({}): {} -> the analysis holds {got:?}, the last message carries `{want}`", if one_write { "one write" } else { "one by one" }, seq.join(", ")); found += 1; }
+        }
+    }
+    println!("version-restart: {found} of {} sequences did not end on the text of the last message", 2 * scenarios.len());
+    s.stop();
+    Some(found)
+}
+
+fn lua_module(i: usize, funcs: usize) -> String {
+    let mut t = format!("---@class Mod{i}\nlocal M = {{}}\n");
+    for f in 0..funcs {
+        t.push_str(&format!("---@param a number\n---@param b string\n---@return number\nfunction M.f{f}(a, b)\n    local t = {{ x = a, y = b, z = {{ a, b, {f} }} }}\n    if a > {f} then return t.x + #b end\n    for k = 1, a do t.x = t.x + k * {f} end\n    return t.x\nend\n"));
+    }
+    t.push_str("return M\n");
+    t
+}
+
+/// a generated workspace on disk (as replay/c24's session mode): `files` modules + a.lua; returns (dir, root uri)
+fn workspace(tag: &str, files: usize, funcs: usize) -> (std::path::PathBuf, String) {
+    let ws = std::env::temp_dir().join(format!("vr_c27_{tag}_{}", std::process::id()));
+    let _ = std::fs::remove_dir_all(&ws);
+    std::fs::create_dir_all(&ws).unwrap();
+    for i in 0..files { std::fs::write(ws.join(format!("m{i}.lua")), lua_module(i, funcs)).unwrap(); }
+    std::fs::write(ws.join("a.lua"), "function on_disk() end\n").unwrap();
+    let root = format!("file://{}", ws.to_string_lossy());
+    (ws, root)
+}
+
+fn init_queue() -> Option<usize> {
+    println!("== init-queue: `initialized` + didOpen + N x (didChange, hover) in ONE write while the server initializes (30-file workspace) ==");
+    let mut found = 0;
+    let counts = [3usize, 8, 21, 30];
+    for n in counts {
+        let (ws, root) = workspace(&format!("queue{n}"), env_usize("VR_C27_FILES", 30), 40);
+        let uri = format!("{root}/a.lua");
+        let mut s = Server::start();
+        s.send(req(1, "initialize", Some(json!({"processId": null, "rootUri": root, "workspaceFolders": [{"uri": root, "name": "ws"}], "capabilities": {"workspace": {"configuration": false}}}))));
+        if s.wait_for(1, Duration::from_secs(30)).is_none() { println!("UNDECIDED no initialize response"); return None; }
+        let mut batch = vec![notif("initialized", Some(json!({}))), did_open(&uri, 1, &step_text("queued", 0))];
+        for k in 1..=n {
+            batch.push(did_change(&uri, 1 + k as i64, &step_text("queued", k)));
+            batch.push(req(10 + k as i64, "textDocument/hover", Some(json!({"textDocument": {"uri": uri}, "position": {"line": 0, "character": 10}}))));
+        }
+        let t0 = Instant::now();
+        s.send_all(&batch);
+        // every queued request is answered after the initialization; wait for all of them, then let the loop go quiet
+        let mut all = true;
+        for k in 1..=n { if s.wait_for(10 + k as i64, Duration::from_secs(90)).is_none() { all = false; break; } }
+        let waited = t0.elapsed().as_millis();
+        if !all { println!("UNDECIDED N={n}: a queued request was not answered; {:?}", s.exited()); s.stop(); let _ = std::fs::remove_dir_all(&ws); return None; }
+        s.settle(Duration::from_millis(env_usize("VR_C27_SETTLE_MS", 600) as u64));
+        let got = symbols(&mut s, 5000, &uri);
+        let want = format!("queued_{n}");
+        match got {
+            Some(got) if got.len() == 1 && got[0] == want => println!("ok    N={n}: {} messages queued during initialization (answers after {waited} ms) -> {got:?}", 1 + 2 * n),
+            Some(got) => { println!("FOUND N={n}: didOpen + {n} didChange interleaved with {n} requests, queued during initialization -> the analysis holds {got:?}, the last didChange carries `{want}`"); found += 1; }
+            None => { println!("UNDECIDED N={n}: no documentSymbol answer"); s.stop(); let _ = std::fs::remove_dir_all(&ws); return None; }
+        }
+        s.stop();
+        let _ = std::fs::remove_dir_all(&ws);
+    }
+    println!("init-queue: {found} of {} queue lengths did not end on the last didChange", counts.len());
+    Some(found)
+}
+
+/// poll documentSymbol until the answer has been the same for `stable`; returns the stable answer
+fn stable_symbols(s: &mut Server, first_id: i64, uri: &str, stable: Duration, timeout: Duration) -> Option<Vec<String>> {
+    let end = Instant::now() + timeout;
+    let mut id = first_id;
+    let mut last: Option<Vec<String>> = None;
+    let mut since = Instant::now();
+    while Instant::now() < end {
+        let got = symbols(s, id, uri)?;
+        id += 1;
+        if last.as_ref() != Some(&got) { last = Some(got); since = Instant::now(); }
+        else if since.elapsed() >= stable { return last; }
+        s.settle(Duration::from_millis(150));
+    }
+    last
+}
+
+fn reload_overlap(rounds: usize) -> Option<usize> {
+    println!("== reload-overlap: a didChange of an open document while a workspace reload (config file changed) is in flight, {rounds} rounds ==");
+    let mut rng: u64 = std::env::var("VERIF_SEED").ok().and_then(|v| v.parse().ok()).unwrap_or(0u64).wrapping_mul(0x9E3779B97F4A7C15) ^ 0xC27C27C27;
+    let mut rand = |lo: u64, hi: u64| { rng ^= rng << 13; rng ^= rng >> 7; rng ^= rng << 17; lo + rng % (hi - lo + 1) };
+    let (ws, root) = workspace("reload", 6, 10);
+    let uri = format!("{root}/a.lua");
+    let rc = format!("{root}/.emmyrc.json");
+    let mut s = Server::start();
+    s.send(req(1, "initialize", Some(json!({"processId": null, "rootUri": root, "workspaceFolders": [{"uri": root, "name": "ws"}],
+        "capabilities": {"window": {"workDoneProgress": true}, "workspace": {"configuration": false}}}))));
+    if s.wait_for(1, Duration::from_secs(30)).is_none() { println!("UNDECIDED no initialize response"); return None; }
+    s.send(notif("initialized", Some(json!({}))));
+    s.send(req(2, "textDocument/hover", Some(json!({"textDocument": {"uri": uri}, "position": {"line": 0, "character": 0}}))));
+    if s.wait_for(2, Duration::from_secs(120)).is_none() { println!("UNDECIDED the server did not finish its initialization"); s.stop(); return None; }
+    s.send(did_open(&uri, 1, &step_text("edit", 0)));
+    s.settle(Duration::from_millis(300));
+    let mut found = 0;
+    let mut overlapped = 0;
+    for r in 1..=rounds {
+        // a plain edit first (no reload in flight), so that the open-file table holds a text the reload will snapshot
+        s.send(did_change(&uri, (2 * r) as i64, &step_text("before_reload", r)));
+        s.settle(Duration::from_millis(100));
+        s.hold_load_progress = true;
+        // the reload starts after the server's 2 s debounce: it snapshots the open files, then asks the client for a progress token.
+        // (observed on the unchanged server: now and then a config change is debounced away and no reload follows; the trigger is repeated then)
+        for attempt in 0..3 {
+            std::fs::write(ws.join(".emmyrc.json"), format!("{{\"diagnostics\": {{\"globals\": [\"vr_c27_round_{r}_{attempt}\"]}}}}\n")).unwrap();
+            s.send(notif("workspace/didChangeWatchedFiles", Some(json!({"changes": [{"uri": rc, "type": if r == 1 && attempt == 0 { 1 } else { 2 }}]}))));
+            let end = Instant::now() + Duration::from_secs(5);
+            while s.held.is_empty() && Instant::now() < end { s.settle(Duration::from_millis(20)); }
+            if !s.held.is_empty() { break; }
+        }
+        let in_flight = !s.held.is_empty();
+        let (d1, d2) = (rand(0, 40), rand(30, 300));
+        std::thread::sleep(Duration::from_millis(d1));
+        let want = format!("during_reload_{r}");
+        s.send(did_change(&uri, (2 * r + 1) as i64, &step_text("during_reload", r)));
+        s.settle(Duration::from_millis(d2));
+        s.hold_load_progress = false;
+        s.answer_held();
+        if in_flight { overlapped += 1; }
+        let got = stable_symbols(&mut s, 7000 + 100 * r as i64, &uri, Duration::from_millis(1500), Duration::from_secs(25));
+        match got {
+            Some(got) if got.len() == 1 && got[0] == want => println!("ok    round {r}: didChange sent {d1} ms after the reload's progress request, answered {d2} ms later{} -> {got:?}", if in_flight { "" } else { " (NO reload seen: no overlap in this round)" }),
+            Some(got) => { println!("FOUND round {r}: the didChange `{want}` was sent while the workspace reload was in flight ({d1} ms after its progress request, answered {d2} ms later); after the reload settled the analysis holds {got:?}"); found += 1; }
+            None => { println!("UNDECIDED round {r}: no documentSymbol answer"); s.stop(); let _ = std::fs::remove_dir_all(&ws); return None; }
+        }
+    }
+    println!("reload-overlap: {found} of {rounds} rounds ended on an older text ({overlapped} rounds really overlapped a reload)");
+    s.stop();
+    let _ = std::fs::remove_dir_all(&ws);
+    if overlapped == 0 { println!("UNDECIDED no round overlapped a reload"); return None; }
+    Some(found)
+}
+
 fn main() {
     let mode = std::env::args().nth(1).unwrap_or("all".to_string());
     if mode == "--server" { return server_main(); }
-    let rounds: usize = std::env::args().nth(2).and_then(|v| v.parse().ok()).unwrap_or(12);
+    let rounds: usize = std::env::args().nth(2).and_then(|v| v.parse().ok()).unwrap_or(10);
     let t0 = Instant::now();
     let mut found = 0;
     let mut undecided = false;
     if mode == "open-change" || mode == "all" { match open_change(rounds) { Some(n) => found += n, None => undecided = true } }
     if mode == "open-close" || mode == "all" { match open_close(rounds) { Some(n) => found += n, None => undecided = true } }
+    if mode == "version-restart" || mode == "all" { match version_restart() { Some(n) => found += n, None => undecided = true } }
+    if mode == "init-queue" || mode == "all" { match init_queue() { Some(n) => found += n, None => undecided = true } }
+    if mode == "reload-overlap" || mode == "all" { match reload_overlap(if mode == "all" { 4 } else { rounds.min(40) }) { Some(n) => found += n, None => undecided = true } }
     println!("({} s)", t0.elapsed().as_secs());
     if found > 0 { std::process::exit(1); }
     if undecided { std::process::exit(2); }
